@@ -172,6 +172,50 @@ mut("c11-unknown-prefix-ignored", ["C11"], FOG,
     "        except KeyError:\n            pass",
     suite=None, note="exploring a prefix that is not unexplored is accepted and adds its children")
 
+BIN = "trie/binary.py"
+mut("c12-kv-split-keeps-branching-bit", ["C12"], BIN,
+    "                    encode_kv_node(left_child[common_prefix_len + 1 :], right_child)",
+    "                    encode_kv_node(left_child[common_prefix_len:], right_child)",
+    suite=False, note="the old child keeps the bit the new branch consumes")
+mut2("c12-no-kv-merge-for-one-bit-paths", ["C12"], [
+    (BIN, "            # Compress (k1, (k2, NODE)) -> (k1 + k2, NODE)\n            if subnodetype == KV_TYPE:", "            # Compress (k1, (k2, NODE)) -> (k1 + k2, NODE)\n            if subnodetype == KV_TYPE and len(sub_left_child) > 1:"),
+    (BIN, "            elif subnodetype in (BRANCH_TYPE, LEAF_TYPE):\n                return self._hash_and_save(\n                    encode_kv_node(\n                        first_bit,", "            else:\n                return self._hash_and_save(\n                    encode_kv_node(\n                        first_bit,"),
+], suite=None, note="a collapsed branch above a one-bit kv node leaves a kv -> kv chain: the root depends on history")
+mut("c12-delete-of-extension-removes-stored-key", ["C12"], BIN,
+    "            if keypath:\n                raise NodeOverrideError(\n                    \"Fail to set the value because the prefix of it's key\"",
+    "            if keypath and value:\n                raise NodeOverrideError(\n                    \"Fail to set the value because the prefix of it's key\"",
+    suite=False, note="deleting a key that extends a stored key deletes the stored key")
+mut("c12-root-assigned-inside-set", ["C12"], BIN,
+    "    def _hash_and_save(self, node):\n        \"\"\"\n        Saves a node into the database and returns its hash\n        \"\"\"\n        validate_is_bin_node(node)\n\n        node_hash = keccak(node)\n",
+    "    def _hash_and_save(self, node):\n        \"\"\"\n        Saves a node into the database and returns its hash\n        \"\"\"\n        validate_is_bin_node(node)\n\n        node_hash = keccak(node)\n        self.root_hash = node_hash\n",
+    suite=None, note="root pointer follows every node being saved: a call that raises midway leaves a changed root")
+mut("c12-subtrie-delete-ignores-partial-kv-match", ["C12"], BIN,
+    "            if len(keypath) < len(left_child) and keypath == left_child[: len(keypath)]:\n                return BLANK_HASH",
+    "            if len(keypath) < len(left_child) and keypath == left_child[: len(keypath)]:\n                return node_hash",
+    suite=False, note="delete_subtrie with a prefix ending inside a kv path removes nothing")
+
+BR = "trie/branches.py"
+mut("c13-missing-node-proves-absence", ["C13"], BR,
+    "    assert BinaryTrie(db=db, root_hash=root_hash).get(key) == value\n",
+    "    try:\n        got = BinaryTrie(db=db, root_hash=root_hash).get(key)\n    except KeyError:\n        got = None\n    assert got == value\n",
+    suite=True, note="if_branch_valid treats a withheld node as proof that the key is absent")
+mut("c13-prefix-exists-ignores-mismatch-inside-kv", ["C13"], BR,
+    "            if key_prefix == left_child[: len(key_prefix)]:\n                return True\n            return False",
+    "            return True",
+    suite=False, note="a prefix that ends inside a kv path always 'exists'")
+mut("c13-branch-omits-leaf", ["C13"], BR,
+    "    if nodetype == LEAF_TYPE:\n        if not keypath:\n            yield node\n        else:\n            raise InvalidKeyError(\"Key too long\")",
+    "    if nodetype == LEAF_TYPE:\n        if keypath:\n            raise InvalidKeyError(\"Key too long\")",
+    suite=False, note="get_branch leaves out the leaf node")
+mut("c13-witness-omits-subtrie-below-partial-kv", ["C13"], BR,
+    "            yield node\n            yield from get_trie_nodes(db, right_child)\n        elif keypath[: len(left_child)] == left_child:",
+    "            yield node\n        elif keypath[: len(left_child)] == left_child:",
+    suite=False, note="witness for a prefix ending inside a kv path lacks the subtrie below it")
+mut("c13-trie-nodes-skips-right-child", ["C13"], BR,
+    "        yield from get_trie_nodes(db, left_child)\n        yield from get_trie_nodes(db, right_child)\n    elif nodetype == LEAF_TYPE:",
+    "        yield from get_trie_nodes(db, left_child)\n    elif nodetype == LEAF_TYPE:",
+    suite=False, note="get_trie_nodes forgets right subtrees")
+
 quiet("q-no-shortcircuit-delete-branch", ["C01", "C02", "C06"], HX,
       "        if encoded_sub_node == node[trie_key[0]]:\n            # If no change, (value already empty), short-circuit and skip any other work\n            return node\n\n        node[trie_key[0]] = encoded_sub_node",
       "        node[trie_key[0]] = encoded_sub_node",
